@@ -15,7 +15,7 @@ RULE = ("Every chain m0 -> m1 -> ... of length 0..L whose elements are synthetic
         "fill_context, inside extract() of a frame suspended in the with body, inside extract() of a frame suspended in "
         "__aexit__, and inside extract() of a frame that holds sibling contexts outward/inward of it of which one unwraps to itself forever (its own fill fails; every other context of the frame must still go through the whole loop, and each failure is reported)}; plus straight chains of 99 and 101 steps. Reference: the documented loop; compared: the hook call log "
         "(elab(m0), unwrap(m0), elab(m1), ...), final obj / hide / description / children / inner_stack, and error iff > 100 "
-        "steps. Each worker process starts with bare fill_context calls on generator-based managers before any extraction has run in it. state = (position in chain, context fields); transition = one hook call; every trace is replayed on the "
+        "steps. Bare fill_context calls while another thread is parked inside an extract() of its own (either option setting). Each worker process starts with bare fill_context calls on generator-based managers before any extraction has run in it. state = (position in chain, context fields); transition = one hook call; every trace is replayed on the "
         "implementation.")
 ASSUMPTIONS = ["at exactly 100 successful unwrap steps either outcome is accepted: an error, or a complete steady state (the property says 'more than 100')"]
 
@@ -476,12 +476,59 @@ def cold_start_check():
     return problems
 
 
+_PARK = {}
+
+
+def cross_thread_check():
+    """While ANOTHER thread sits inside an extract() call (parked in a hook of its own, with either option setting), a bare
+    fill_context on this thread is still 'outside any extract': same result as ever.  Returns problems."""
+    import threading
+    stackscope = world()["stackscope"]
+    if not _PARK:
+        class Park(object):
+            def __init__(s):
+                s.entered = threading.Event()
+                s.release = threading.Event()
+
+        @stackscope.unwrap_stackitem.register(Park)
+        def _(p):
+            p.entered.set()
+            p.release.wait(60)
+            return None
+        _PARK["Park"] = Park
+    problems = []
+    for opts in ({"with_contexts": False, "recurse_child_tasks": False}, {"with_contexts": True, "recurse_child_tasks": True}):
+        park = _PARK["Park"]()
+        th = threading.Thread(target=lambda: stackscope.extract(park, **opts))
+        th.start()
+        try:
+            if not park.entered.wait(30):
+                problems.append("harness: the other thread did not reach its hook")
+                continue
+            for case in COLD_CASES:
+                for exiting in (False, True):
+                    ref = reference(case, exiting)
+                    got, log = run_bare(case, exiting)
+                    problems += compare(ref, got, log, "another thread is inside extract(%r)/%s/exiting=%r" % (
+                        sorted(opts.items()), "+".join(case["names"]), exiting))
+        finally:
+            park.release.set()
+            th.join(60)
+    return problems
+
+
 def run(ctx):
-    problems = cold_start_check()
+    problems = cold_start_check()       # first: nothing has been extracted in this process yet
     ctx.count("evaluations", 2 * len(COLD_CASES))
     ctx.count("cold_start_checks")
     if problems:
         ctx.violation({"cold": True}, "; ".join(problems)[:1500], "cold")
+    if ctx.shard == 0:
+        xp = cross_thread_check()
+        ctx.count("evaluations", 8)
+        ctx.count("cross_thread_checks")
+        if xp:
+            ctx.violation({"cross_thread": True}, "; ".join(xp)[:1500], "crossthread")
     idx = 0
     states = set()
     for case in gen_cases(bounds(ctx.tier)["max_chain"]):
@@ -507,6 +554,8 @@ def run(ctx):
 def replay(case):
     if case.get("cold"):
         return [{"detail": p} for p in cold_start_check()]
+    if case.get("cross_thread"):
+        return [{"detail": p} for p in cross_thread_check()]
     if "long" in case and "names" not in case:
         n = case["long"]
         case = {"names": ["w%d" % i for i in range(n + 1)], "elabs": ["desc"] * (n + 1), "last": None, "long": n}
